@@ -190,6 +190,19 @@ ExpFileName(f, c) ==
 
 Ext(f) == CASE f = "deb" -> ".deb" [] f = "ipk" -> ".ipk" [] f = "rpm" -> ".rpm" [] f = "apk" -> ".apk" [] f = "archlinux" -> ".pkg.tar.zst"
 
+(* ---- per-format override blocks (C13 composed with C02/C09/C01) ------------ *)
+(* The effective configuration of format f: the overridable fields the block sets to a non-empty value replace the base *)
+(* (lists wholesale, umask when non-zero, the common scripts field by field); everything else is the base.  This is    *)
+(* Config!Effective applied to the record the layout clauses read.                                                      *)
+CommonSlots == {"preinstall", "postinstall", "preremove", "postremove"}
+OvList(b, o) == IF o # <<>> THEN o ELSE b
+EffCfg(c, o) ==
+  [c EXCEPT !.depends = OvList(@, o.depends), !.recommends = OvList(@, o.recommends), !.suggests = OvList(@, o.suggests),
+            !.conflicts = OvList(@, o.conflicts), !.replaces = OvList(@, o.replaces), !.provides = OvList(@, o.provides),
+            !.umask = IF o.umask # 0 THEN o.umask ELSE @,
+            !.scripts = [s \in DOMAIN @ |-> IF s \in CommonSlots /\ o.scripts[s] # "" THEN o.scripts[s] ELSE @[s]],
+            !.script_mt = [s \in DOMAIN @ |-> IF s \in CommonSlots /\ o.scripts[s] # "" THEN o.script_mt[s] ELSE @[s]]]
+
 (* recomposed from the OBSERVED inner metadata: name, version string (without epoch), architecture *)
 StripEpoch(s) == LET i == IndexOf(s, ":") IN IF i = 0 THEN s ELSE SubSeq(s, i + 1, Len(s))
 FileNameClauses(f, c, fname, evs) ==
